@@ -79,15 +79,26 @@ Fixpoint last_tok (items : list lexitem) (acc : option rtoken) : option rtoken :
   | _ :: r => last_tok r acc
   end.
 
-(** [Lexer::span]: a span ending at the end of the source is replaced by the byte before it. *)
-Definition lexer_span (srclen : N) (start stop : N) : span :=
-  if stop =? srclen then {| off := start - 1; slen := 1 |} else {| off := start; slen := stop - start |}.
+(** The character of [s] holding byte [n], where [s] is the rest of the source starting at byte [o]: offset
+    and UTF-8 length of that character; when [n] lies at or beyond the end, the empty span at the end.
+    (Rust: walk [start] down to a character boundary, then [source[start..].chars().next()].) *)
+Fixpoint char_holding (o : N) (s : str) (n : N) : span :=
+  match s with
+  | [] => {| off := o; slen := 0 |}
+  | c :: r => if n <? o + utf8_len c then {| off := o; slen := utf8_len c |}
+              else char_holding (o + utf8_len c) r n
+  end.
 
-Definition mk_ctx (srclen : N) (items : list lexitem) : ctx :=
-  {| eof_tok := lexer_span srclen srclen srclen;
+(** [Lexer::span]: a span ending at the end of the source is replaced by the whole character that holds
+    the byte before the span's start ([start.saturating_sub(1)]); on an empty source by the empty span. *)
+Definition lexer_span (src : str) (start stop : N) : span :=
+  if stop =? byte_len src then char_holding 0 src (start - 1) else {| off := start; slen := stop - start |}.
+
+Definition mk_ctx (src : str) (items : list lexitem) : ctx :=
+  {| eof_tok := lexer_span src (byte_len src) (byte_len src);
      eof_la := match last_tok items None with
-               | Some t => lexer_span srclen (off (tsp t)) (span_end (tsp t))
-               | None => lexer_span srclen 0 0
+               | Some t => lexer_span src (off (tsp t)) (span_end (tsp t))
+               | None => lexer_span src 0 0
                end |}.
 
 (* ------------------------------------------------------------------ primitives *)
@@ -851,5 +862,5 @@ Definition cfg_with (d : deviations) (base : lexcfg) : lexcfg :=
 (** [Document::parse]. *)
 Definition parse_document (d : deviations) (base : lexcfg) (src : str) : pres document :=
   let items := lex (cfg_with d base) src in
-  let e := {| dv := d; cx := mk_ctx (byte_len src) items; fuel := S (length items) |} in
+  let e := {| dv := d; cx := mk_ctx src items; fuel := S (length items) |} in
   parse_document_items e items.
